@@ -249,7 +249,8 @@ pub fn case(ctx: &mut CaseCtx) {
         ctx.count("exhaustive_vectors");
         ctx.max("exhaustive_n", n as u64);
     } else {
-        let n = ctx.rng.below(9);
+        // usually 0..8 policies; now and then a large set (hash-map growth, many reasons / errors at once)
+        let n = if ctx.rng.chance(1, 25) { 9 + ctx.rng.below(40) } else { ctx.rng.below(9) };
         for _ in 0..n {
             vector.push((if ctx.rng.chance(3, 5) { Effect::Permit } else { Effect::Forbid }, ctx.rng.weighted(&[3, 4, 2])));
         }
@@ -353,7 +354,11 @@ pub fn case(ctx: &mut CaseCtx) {
     // ids renamed by a bijection into hostile spellings
     let mut pool: Vec<String> = HOSTILE_IDS.iter().map(|s| s.to_string()).collect();
     ctx.rng.shuffle(&mut pool);
-    if specs.len() <= pool.len() {
+    {
+        while pool.len() < specs.len() {
+            let k = pool.len();
+            pool.push(format!("policy{k}\u{1F600}{}", "x".repeat(k % 3)));
+        }
         let new_ids: Vec<String> = pool[..specs.len()].to_vec();
         let back: BTreeMap<String, String> = new_ids.iter().cloned().zip(ids.iter().cloned()).collect();
         let mut order2 = identity.clone();
